@@ -167,7 +167,7 @@ func (m *Machine) deadlock() {
 	if m.outcomeSet {
 		return
 	}
-	v := Violation{Label: "deadlock", Kind: "deadlock", Detail: detail, Prefix: append([]int32(nil), m.decisions...)}
+	v := Violation{Label: "deadlock", Kind: "deadlock", Detail: detail, Prefix: append([]int32(nil), m.decisions...), Kinds: string(m.kinds), Goroutines: len(m.gs)}
 	if in, ok := m.modelInputs(); ok {
 		v.Inputs = in
 		m.res.Violations = append(m.res.Violations, v)
